@@ -117,8 +117,10 @@ func (env *SpecEnv) eval(e *Expr) *SV {
 		if env.old == nil {
 			stale("old() not available here: %s", e)
 		}
-		o := *env.old
-		o.bound = env.bound
+		// old(e): the heap of the pre-state; names (parameters, results, bound variables) keep their values
+		o := *env
+		o.heap = env.old.heap
+		o.old = nil
 		return o.eval(e.Args[0])
 	case "unary":
 		a := env.eval(e.Args[0])
@@ -144,10 +146,14 @@ func (env *SpecEnv) eval(e *Expr) *SV {
 	case "forall", "exists":
 		c := env.child()
 		var vars []*Term
-		for _, v := range e.Vars {
+		for vi, v := range e.Vars {
 			s := SInt
-			if e.VType == "bool" {
-				s = SBool
+			vt := e.VType
+			if vi < len(e.VTypes) {
+				vt = e.VTypes[vi]
+			}
+			if vt != "int" && vt != "" {
+				s = specSort(vt)
 			}
 			bv := Var(v+"?", s)
 			vars = append(vars, bv)
@@ -157,10 +163,34 @@ func (env *SpecEnv) eval(e *Expr) *SV {
 		if t := expandBounded(e.Kind, vars, body); t != nil {
 			return &SV{T: t}
 		}
-		if e.Kind == "forall" {
-			return &SV{T: Forall(vars, body)}
+		var autoPats [][]*Term
+		if e.Kind == "forall" && len(e.Triggers) == 0 {
+			vars, body, autoPats = x.absolutise(vars, body)
 		}
-		return &SV{T: Exists(vars, body)}
+		var q *Term
+		if e.Kind == "forall" {
+			q = Forall(vars, body)
+		} else {
+			q = Exists(vars, body)
+		}
+		if len(autoPats) > 0 && q.Op == "forall" {
+			q.Pats = autoPats
+		}
+		if len(e.Triggers) > 0 && (q.Op == "forall" || q.Op == "exists") {
+			for _, grp := range e.Triggers {
+				var ts []*Term
+				for _, te := range grp {
+					tv := c.eval(te)
+					if tv.T != nil {
+						ts = append(ts, tv.T)
+					}
+				}
+				if len(ts) > 0 {
+					q.Pats = append(q.Pats, ts)
+				}
+			}
+		}
+		return &SV{T: q}
 	case "binary":
 		return env.evalBinary(e)
 	case "field":
@@ -510,7 +540,7 @@ func (env *SpecEnv) index(a *SV, i *Term, e *Expr) *SV {
 	switch u := a.Ty.Underlying().(type) {
 	case *types.Slice:
 		es := x.eng.SortOf(u.Elem())
-		p := &Place{Comp: memComp(es), Elem: es, Ref: SArr(a.T), Idx: Add(SOff(a.T), i), Ty: u.Elem()}
+		p := &Place{Comp: memComp(es), Elem: es, Ref: SArr(a.T), Idx: ElemIdx(SOff(a.T), i, es), Ty: u.Elem()}
 		return &SV{T: x.readPlace(env.heap, p), Ty: u.Elem(), P: p}
 	case *types.Pointer:
 		if arr, ok := u.Elem().Underlying().(*types.Array); ok {
@@ -600,6 +630,14 @@ func (env *SpecEnv) call(e *Expr) *SV {
 		n := env.evalInt(e.Args[1])
 		k := env.evalInt(e.Args[2])
 		return &SV{T: x.ubit(v.T, n, k)}
+	case "rowBit":
+		argN(2)
+		w := env.eval(e.Args[0])
+		return &SV{T: x.rowBit(w.T, env.evalInt(e.Args[1]))}
+	case "rowByte":
+		argN(2)
+		w := env.eval(e.Args[0])
+		return &SV{T: Select(w.T, env.evalInt(e.Args[1])), Ty: types.Typ[types.Uint8]}
 	case "byteOf":
 		// byteOf(v, j): byte j of v, j = 0 is the least significant byte
 		argN(2)
@@ -640,7 +678,8 @@ func (env *SpecEnv) call(e *Expr) *SV {
 	case "disjoint":
 		argN(2)
 		a, b := env.eval(e.Args[0]), env.eval(e.Args[1])
-		return &SV{T: Or(Neq(SArr(a.T), SArr(b.T)), Eq(SLen(a.T), IntLit(0)), Eq(SLen(b.T), IntLit(0)))}
+		// different backing arrays (a nil slice is disjoint from everything)
+		return &SV{T: Or(Neq(SArr(a.T), SArr(b.T)), Eq(SArr(a.T), IntLit(0)))}
 	case "sameslice":
 		argN(2)
 		a, b := env.eval(e.Args[0]), env.eval(e.Args[1])
@@ -732,6 +771,8 @@ func specSort(s string) *Sort {
 		return SBV(64)
 	case "slice":
 		return SSlice
+	case "row":
+		return SArray(SInt, SBV(8))
 	case "str":
 		return SStr
 	}
@@ -742,6 +783,10 @@ func specSort(s string) *Sort {
 // ---------- bit helpers ----------
 
 func (x *Exec) bitOfByte(b *Term, k *Term) *Term {
+	if x.opaque["bitOfByte"] {
+		x.eng.DeclareUF("bitOfByteU", SBool, SBV(8), SInt)
+		return App("bitOfByteU", SBool, b, k)
+	}
 	// bit k of byte b counted from the most significant bit (k = 0 is 0x80)
 	if k.IsIntLit() {
 		kk := int(k.Val.Int64())
@@ -759,6 +804,19 @@ func (x *Exec) bitOfByte(b *Term, k *Term) *Term {
 
 func (x *Exec) bitAt(heap map[string]*Term, s *Term, j *Term) *Term {
 	m := x.comp(heap, memComp(SBV(8)), memSort(SBV(8)))
+	if x.opaque["bitAt"] {
+		row := Select(m, SArr(s))
+		// opaque: bit at absolute position 8*off+j of the array row.  Quantified clauses are
+		// re-parametrised over the absolute position (see absolutise), so that the trigger
+		// rowBitU(row, B) has a plain bound variable and matches through sub-slicing.
+		return x.rowBit(row, Add(Mul(IntLit(8), SOff(s)), j))
+	}
+	if x.opaque["bitOfByte"] {
+		// semi-opaque: which byte is read stays visible (so byte-level copies carry bits along),
+		// how a bit is taken out of the byte is uninterpreted
+		b := Select(Select(m, SArr(s)), Add(SOff(s), EDiv(j, IntLit(8))))
+		return x.bitOfByte(b, EMod(j, IntLit(8)))
+	}
 	b := Select(Select(m, SArr(s)), Add(SOff(s), EDiv(j, IntLit(8))))
 	return x.bitOfByte(b, EMod(j, IntLit(8)))
 }
@@ -766,6 +824,13 @@ func (x *Exec) bitAt(heap map[string]*Term, s *Term, j *Term) *Term {
 // ubit(v, n, k): bit k (from the most significant end of an n-bit field) of v = bit n-1-k of v
 func (x *Exec) ubit(v *Term, n, k *Term) *Term {
 	w := v.S.W
+	if v.IsBVLit() && v.Val.Sign() == 0 {
+		return False
+	}
+	if x.opaque["ubit"] {
+		x.eng.DeclareUF(fmt.Sprintf("ubitU%d", w), SBool, v.S, SInt, SInt)
+		return App(fmt.Sprintf("ubitU%d", w), SBool, v, n, k)
+	}
 	idx := Sub(Sub(n, IntLit(1)), k)
 	if idx.IsIntLit() {
 		i := int(idx.Val.Int64())
@@ -779,6 +844,83 @@ func (x *Exec) ubit(v *Term, n, k *Term) *Term {
 		r = Ite(App("=", SBool, idx, IntLit(int64(i))), Eq(Extract(v, i, i), BVLit(1, 1)), r)
 	}
 	return r
+}
+
+func (x *Exec) rowBit(row, b *Term) *Term {
+	if x.opaque["bitAt"] {
+		x.eng.DeclareUF("rowBitU", SBool, row.S, SInt)
+		return App("rowBitU", SBool, row, b)
+	}
+	by := Select(row, EDiv(b, IntLit(8)))
+	return x.bitOfByte(by, EMod(b, IntLit(8)))
+}
+
+// absolutise: forall v :: body  where body mentions rowBitU(row, a + v) (row independent of v):
+// change variables to B = a + v, so the uninterpreted symbol's argument is the bound variable itself.
+func (x *Exec) absolutise(vars []*Term, body *Term) ([]*Term, *Term, [][]*Term) {
+	if !x.opaque["bitAt"] {
+		return vars, body, nil
+	}
+	for vi, v := range vars {
+		if v.S.K != KInt {
+			continue
+		}
+		// find a rowBitU occurrence whose position is linear in v with coefficient 1
+		var found *Term
+		var rest *Term
+		var walk func(t *Term)
+		seen := map[*Term]bool{}
+		mentions := func(t *Term) bool {
+			fv := map[string]*Sort{}
+			FreeVars(t, fv, map[*Term]bool{})
+			_, ok := fv[v.Name]
+			return ok
+		}
+		walk = func(t *Term) {
+			if found != nil || seen[t] {
+				return
+			}
+			seen[t] = true
+			if t.Op == "rowBitU" && !mentions(t.Args[0]) {
+				l := linOf(t.Args[1])
+				for i, a := range l.atoms {
+					if a.Op == "var" && a.Name == v.Name && l.coefs[i].Cmp(big.NewInt(1)) == 0 {
+						// rest = position - v
+						r := &linForm{c: new(big.Int).Set(l.c)}
+						okRest := true
+						for j, b := range l.atoms {
+							if j != i {
+								if mentions(b) {
+									okRest = false
+								}
+								r.add(b, l.coefs[j])
+							}
+						}
+						if okRest {
+							found, rest = t, r.term()
+						}
+					}
+				}
+			}
+			for _, a := range t.Args {
+				walk(a)
+			}
+		}
+		walk(body)
+		if found == nil {
+			continue
+		}
+		if rest.IsIntLit() && rest.Val.Sign() == 0 {
+			// already absolute
+			return vars, body, [][]*Term{{App("rowBitU", SBool, found.Args[0], v)}}
+		}
+		B := Var(strings.TrimSuffix(v.Name, "?")+"@B?", SInt)
+		nb := Subst(body, map[string]*Term{v.Name: Sub(B, rest)})
+		nv := append([]*Term{}, vars...)
+		nv[vi] = B
+		return nv, nb, [][]*Term{{App("rowBitU", SBool, found.Args[0], B)}}
+	}
+	return vars, body, nil
 }
 
 func (x *Exec) strLen(s *Term) *Term {
